@@ -1011,12 +1011,13 @@ class HistogramBase(abc.ABC):
         if isinstance(other, HistogramBase):
             raise TypeError("Division of two histograms is not supported.")
         elif np.isscalar(other):
+            reciprocal = 1 / other  # Fails for zero before anything is modified
             self._coerce_dtype(np.float64)
             self.frequencies = self.frequencies / other
             self.errors2 = self.errors2 / other**2
             self._missed /= other
             if hasattr(self, "_stats"):
-                self._stats *= 1 / other
+                self._stats *= reciprocal
         elif config.free_arithmetics:  # Treat other as array-like
             self._coerce_dtype(np.float64)
             array = np.asarray(other)
